@@ -224,6 +224,16 @@ REQS = {
     # static files (the response options' suffix table is consulted)
     's1': dict(method='GET', raw_path='/st/x.yaml', query='', headers=[('X-Rid', 'r-s1')]),
     's2': dict(method='GET', raw_path='/st/y.yml', query='', headers=[('X-Rid', 'r-s2')]),
+    # parameterised content types: v=1 has been seen by a pre-history (see 'all+preN'), v=99 never
+    'v1': dict(method='POST', raw_path='/a/7', query='', headers=[('X-Rid', 'r-v1'), ('Content-Type', 'application/json; v=1')],
+               body=b'{"n": 1}'),
+    'v99': dict(method='POST', raw_path='/b/8', query='', headers=[('X-Rid', 'r-v99'), ('Content-Type', 'application/json; v=99')],
+                body=b'{"n": 99}'),
+    # two broken JSON bodies: each client is told about ITS syntax error (position and kind differ)
+    'j1': dict(method='POST', raw_path='/a/7', query='', headers=[('X-Rid', 'r-j1'), ('Content-Type', 'application/json')],
+               body=b'{"first": '),
+    'j2': dict(method='POST', raw_path='/b/8', query='', headers=[('X-Rid', 'r-j2'), ('Content-Type', 'application/json')],
+               body=b'{"second": 1, "x" 2, "padding": "............"}'),
 }
 
 
@@ -306,12 +316,19 @@ def make_select(level):
 
 
 def thr_run_factory(size, names, level):
+    # level 'all+preN': before the threads start, the app serves N requests with N distinct (parameterised) content
+    # types -- bounded per-app memos (handler resolution) are then full / about to be recycled
+    level, _, pre = level.partition('+pre')
+    pre = int(pre) if pre else 0
     select = make_select(level)
 
     def run(ch):
         app = build_app('wsgi', size)
         if level == 'all':
             wsgi_req(app, 'nf')        # the lazy compile race is the 'router' configurations' subject
+        for i in range(1, pre + 1):
+            wsgid.call(app, method='POST', raw_path='/a/7', body=b'{"n": 1}',
+                       headers=[('X-Rid', 'pre'), ('Content-Type', 'application/json; v=%d' % i), ('Content-Length', '8')])
         s = thr.Scheduler(ch, select, max_points=200000)
         thr.CURRENT = s
         try:
@@ -579,7 +596,7 @@ def seq_batch(batch, rep):
 
 # ---------------------------------------------------------------------------
 # requests left out of the length-4 histories of the thorough tier (they take part in every history of length <= 3)
-K4_SKIP = {'a2', 'bx', 'd', 'p2', 'u2', 'o', 'w2', 'm2', 's2'}
+K4_SKIP = {'a2', 'bx', 'd', 'p2', 'u2', 'o', 'w2', 'm2', 's2', 'v1', 'v99', 'j2'}
 
 
 def plan(tier, seed):
@@ -590,13 +607,16 @@ def plan(tier, seed):
                     # Accept headers, error paths (shared resolver / negotiation caches, per-request objects)
                     ('full', ('p1', 'f1'), 'all', 1), ('full', ('e2', 'b2'), 'all', 1), ('full', ('pq', 'a1'), 'all', 1),
                     ('full', ('u1', 'u2'), 'all', 1), ('full', ('m', 'm2'), 'all', 1), ('full', ('w1', 'w2'), 'all', 1),
-                    ('full', ('s1', 's2'), 'all', 1)]
-        aio_cfgs = [('full', ('a1', 'b2'), False), ('full', ('p1', 'p2'), False), ('full', ('p1', 'e1'), True), ('full', ('c', 'e2'), False),
+                    ('full', ('s1', 's2'), 'all', 1),
+                    # a memoised resolution (v=1) next to a never-seen content type, the per-app memo holding 63 / 64 entries
+                    ('full', ('v1', 'v99'), 'all+pre63', 1), ('full', ('v1', 'v99'), 'all+pre64', 1),
+                    ('full', ('j1', 'j2'), 'all', 1)]
+        aio_cfgs = [('full', ('j1', 'j2'), True), ('full', ('a1', 'b2'), False), ('full', ('p1', 'p2'), False), ('full', ('p1', 'e1'), True), ('full', ('c', 'e2'), False),
                     # dependent middleware mode: a request rejected half-way down the stack while another is parked at an await
                     ('dep', ('p1', 'deny'), True), ('dep', ('deny', 'p2'), True),
                     # three requests in flight: every interleaving with <=3 departures from the default order
                     ('full', ('a1', 'p1', 'e2'), False, 3), ('dep', ('p1', 'deny', 'a1'), True, 2)]
-        names = ['a1', 'b2', 'c', 'e1', 'e2', 'p1', 'pq', 'nf', 'm', 'm2', 'e3', 'w1', 'w2', 's1']
+        names = ['a1', 'b2', 'c', 'e1', 'e2', 'p1', 'pq', 'nf', 'm', 'm2', 'e3', 'w1', 'w2', 's1', 'j1']
         perm_k = 3
     else:
         thr_cfgs = [('small', ('a1', 'b2', 'nf'), 'router', 2), ('full', ('c', 'd'), 'router', 2),
@@ -605,8 +625,10 @@ def plan(tier, seed):
                     ('full', ('a1', 'p1', 'f1'), 'all', 1), ('full', ('o', 'm'), 'all', 1), ('full', ('u1', 'u2'), 'all', 1),
                     ('full', ('pq', 'a1'), 'all', 1), ('full', ('m', 'm2'), 'all', 1), ('full', ('w1', 'w2'), 'all', 1),
                     ('full', ('e3', 'm'), 'all', 1), ('full', ('w1', 'nf'), 'all', 1), ('full', ('s1', 's2'), 'all', 1),
-                    ('full', ('s1', 'a1'), 'all', 1), ('full', ('u1', 'u2'), 'all', 2)]
-        aio_cfgs = [('full', ('a1', 'b2'), False), ('full', ('p1', 'p2'), True), ('full', ('p1', 'e1'), True), ('full', ('c', 'e2'), False),
+                    ('full', ('s1', 'a1'), 'all', 1), ('full', ('u1', 'u2'), 'all', 2),
+                    ('full', ('v1', 'v99'), 'all+pre63', 1), ('full', ('v1', 'v99'), 'all+pre64', 1), ('full', ('v1', 'v99'), 'all+pre65', 1),
+                    ('full', ('v99', 'v1'), 'all+pre64', 1), ('full', ('j1', 'j2'), 'all', 1), ('full', ('j2', 'p1'), 'all', 1)]
+        aio_cfgs = [('full', ('j1', 'j2'), True), ('full', ('j1', 'j2'), False), ('full', ('a1', 'b2'), False), ('full', ('p1', 'p2'), True), ('full', ('p1', 'e1'), True), ('full', ('c', 'e2'), False),
                     # three requests in flight: the full interleaving space has 7.4e5 members per configuration (measured;
                     # 6 min each on 16 cores) -- explored here up to 5 (4) departures from the default order instead
                     ('full', ('a1', 'p1', 'e2'), False, 5), ('full', ('p1', 'p2', 'nf'), False, 5),
